@@ -3,14 +3,26 @@ NOTES = ("All checks are driven by /verif/check (python3, stdlib). Specification
          "/verif/harness (binary gv) and the goml CLI are rebuilt from /repo's working tree on every run with --cfg goml_verif. "
          "Exit 0 = held (KNOWN-FINDING lines for defects listed in known_findings.json), 1 = VIOLATION, 2 = tool error.")
 ENGINES = [
-    {"name": "tlc", "path": "/verif/spec", "serves_properties": ["C01", "C02", "C05", "C06", "C09", "C10", "C13", "C15"],
+    {"name": "tlc", "path": "/verif/spec", "serves_properties": ["C01", "C02", "C05", "C06", "C07", "C08", "C09", "C10", "C13", "C15"],
      "kind_free_text": "TLA+ specifications model-checked / simulated by TLC 1.8"},
-    {"name": "gv", "path": "/verif/harness", "serves_properties": ["C01", "C02", "C05", "C06", "C09", "C10", "C13", "C15"],
+    {"name": "gv", "path": "/verif/harness", "serves_properties": ["C01", "C02", "C05", "C06", "C07", "C08", "C09", "C10", "C13", "C15"],
      "kind_free_text": "Rust conformance harness with path dependencies on /repo/crates/*, and the goml CLI built from /repo"},
 ]
 PENDING = "check not built yet in this round (planned in DESIGN.md §4); not a claim that the technique cannot apply"
 NOT_APPLICABLE = {p: PENDING for p in ["C%02d" % i for i in range(1, 21)]}
 CHECKS = {
+    "C07": {
+        "level": "model_checking",
+        "technique": "Mono.tla (instantiation worklist with dedup, naming, termination) model-checked by TLC incl. liveness; generic templates x concrete type-argument pairs validated GomlSem (type passing) vs GoSem on the monomorphised Go, GoStatic for duplicate/missing instances",
+        "text": "Mono.tla models ensure_instance / pop over all call graphs of 2-3 generic functions with same/wrap/const type-argument transformers: each reachable instance emitted exactly once (fails as self-test without the queued test), completeness, injective naming, termination iff the closure is finite. Templates (identity, swap, first, boxes, options incl. return-type-only parameters, nested instances, recursive lists, function-typed parameters, trait-bounded functions calling each other, impls on two instances of one generic type) are instantiated at pairs of 16 concrete types; outputs of the monomorphised Go must equal GomlSem's and the Go must be valid.",
+        "note": "Trusted as for C01; Mono.tla abstracts types to nesting depth. The H2 tracing hook planned in DESIGN.md was not needed (behavioural binding).",
+    },
+    "C08": {
+        "level": "translation_validation",
+        "technique": "closure templates (capture set x nesting x flow x mutation/shadowing) evaluated by GomlSem.tla and, after real lambda lifting, by GoSem.tla",
+        "text": "Every combination of captured binder kinds (fn parameter, let, pattern variable, outer closure parameter, Ref cell), nesting depth 1-3 and flow of the function value (let, tuple, struct field, array, argument, branch result, closure-in-closure, call after Ref mutation, call after shadowing, repeated call), top-level functions as values, zero-arity values and returned counters; captured variables carry distinct weights so the printed number identifies binder and value. Outcome of the lifted Go must equal GomlSem's closure semantics.",
+        "note": "Programs whose Go is invalid because of the known closure-representation defect (C02 finding) cannot be executed and are only counted.",
+    },
     "C10": {
         "level": "model_checking",
         "technique": "IntN.tla (exact N-bit arithmetic) checked by TLC against reference vectors and exhaustively for 8 bits; literal/operator/boundary templates run through GomlSem.tla and, compiled, through GoSem.tla",
